@@ -416,7 +416,35 @@ func (in *Inst) Note(kind, node string) { in.note(kind, node) }
 
 // Quiesce waits for the quiescent point of the case.
 func (in *Inst) Quiesce(watchdog time.Duration) quiesce.Result {
-	r := in.quiesce(watchdog)
+	// nothing blocks for good if an engine goroutine spins: accept the point when everything else has
+	// settled and the trace stream is silent, so that the property's own comparison decides. Tried after a
+	// short first wait (a spinning instance would otherwise cost the whole watchdog at every step) and
+	// again when the watchdog has expired.
+	extra := func() bool {
+		for _, ch := range in.Subs {
+			if len(ch) != 0 {
+				return false
+			}
+		}
+		return true
+	}
+	first := 400 * time.Millisecond
+	if watchdog < first {
+		first = watchdog
+	}
+	r := in.quiesce(first)
+	for attempt := 0; !r.Quiescent && attempt < 2; attempt++ {
+		if fn, gs := quiesce.SpinSettled(in.Label, extra, in.consumed.Load); fn != "" {
+			r.Quiescent, r.Spinning, r.Gs = true, fn, gs
+			in.note("spinning", fn)
+			break
+		}
+		if attempt == 0 && watchdog > first {
+			n := r.Snapshots
+			r = in.quiesce(watchdog - first)
+			r.Snapshots += n
+		}
+	}
 	if QCheck && r.Quiescent {
 		before := in.consumed.Load()
 		time.Sleep(3 * time.Millisecond)
